@@ -29,7 +29,8 @@ DecodableFam ==
    "withTelemetry", "withDomain", "withIssueLink", "unimplementedError", "withContext",
    "withAssertionFailure", "withMark", "withSecondaryError", "barrierErr", "joinError",
    "withHTTPCode", "withGrpcCode", "goErr", "ctxDeadline", "errno", "pkgWithMessage",
-   "osPathError", "osLinkError", "osSyscallError", "uRegLeaf", "grpcStatus", "gogoStatus"}
+   "osPathError", "osLinkError", "osSyscallError", "uRegLeaf", "grpcStatus", "gogoStatus",
+   "uRegWrap", "uRegWrapFull", "uRegMulti"}
 
 Knows(known, fam) == ("*" \in known \/ fam \in known) /\ fam \in DecodableFam
 
@@ -65,6 +66,8 @@ Enc(v, reg, D) ==
     [] v.ty \in LeafTy /\ ~IsWrap(v) -> Leaf(Text(v), <<>>, <<>>)
     \* ---- multi-cause nodes travel as leaves with causes
     [] v.ty = "joinError" -> Leaf(IF "JoinEncodesEmptyMsg" \in D THEN <<>> ELSE Text(v), <<>>, <<>>)
+    \* (user multi-cause type registered with RegisterMultiCauseEncoder / Decoder)
+    [] v.ty = "uRegMulti" -> Leaf(v.s, <<>>, <<P("String", v.s, <<>>, <<>>, <<>>)>>)
     [] v.ty \in MultiTy -> Leaf(Text(v), <<>>, <<>>)
     \* ---- wrappers with a registered encoder
     [] v.ty = "withPrefix" ->
@@ -72,6 +75,9 @@ Enc(v, reg, D) ==
               <<P("String", v.s, <<>>, <<>>, <<>>)>>)
     [] v.ty = "withNewMessage" ->
          Wrap(v.s, "NewMessageEncodedAsPrefix" \notin D, <<>>, <<P("String", v.s, <<>>, <<>>, <<>>)>>)
+    \* (user wrappers registered with RegisterWrapperEncoder / ...WithMessageType)
+    [] v.ty = "uRegWrap" -> Wrap(v.s, FALSE, <<>>, <<P("String", v.s, <<>>, <<>>, <<>>)>>)
+    [] v.ty = "uRegWrapFull" -> Wrap(v.s, TRUE, <<>>, <<P("String", v.s, <<>>, <<>>, <<>>)>>)
     [] v.ty \in {"withHint", "withDetail"} -> Wrap(<<>>, FALSE, <<>>, <<P("String", v.s, <<>>, <<>>, <<>>)>>)
     [] v.ty = "withContext" -> Wrap(<<>>, FALSE, <<>>, <<P("Tags", <<>>, v.a, <<>>, <<>>)>>)
     [] v.ty = "withMark" -> Wrap(<<>>, FALSE, <<>>, <<P("Mark", <<>>, <<>>, <<>>, v.mk)>>)
@@ -119,6 +125,8 @@ Dec(w, known, D) ==
            ELSE OpaqueLeaf
       [] w.fam = "grpcStatus" -> IF PayT(w) = "Status" THEN V("grpcStatus", p.s, <<>>, <<>>, <<>>) ELSE OpaqueLeaf
       [] w.fam = "uRegLeaf" -> IF PayT(w) = "String" THEN V("uRegLeaf", p.s, <<>>, <<>>, <<>>) ELSE OpaqueLeaf
+      [] w.fam = "uRegMulti" ->
+           IF PayT(w) = "String" THEN V("uRegMulti", p.s, <<>>, kidsV, <<>>) ELSE OpaqueLeaf
       [] w.fam = "joinError" ->
            \* Join(causes...) drops nothing here: decoded causes are never nil
            IF kidsV = <<>> THEN OpaqueLeaf ELSE V("joinError", <<>>, <<>>, kidsV, <<>>)
@@ -127,6 +135,8 @@ Dec(w, known, D) ==
     IF ~Knows(known, w.fam) THEN OpaqueWrap
     ELSE
     CASE w.fam \in {"withPrefix", "withNewMessage", "withHint", "withDetail"} ->
+           IF PayT(w) = "String" THEN V(w.fam, p.s, <<>>, kidsV, <<>>) ELSE OpaqueWrap
+      [] w.fam \in {"uRegWrap", "uRegWrapFull"} ->
            IF PayT(w) = "String" THEN V(w.fam, p.s, <<>>, kidsV, <<>>) ELSE OpaqueWrap
       [] w.fam = "withSafeDetails" -> V(w.fam, <<>>, w.rp, kidsV, <<>>)
       [] w.fam = "withTelemetry" -> V(w.fam, <<>>, w.rp, kidsV, <<>>)
